@@ -6,7 +6,15 @@ for d in sorted(glob.glob("/verif/seeded/C*")):
     m = json.load(open(os.path.join(d, "meta.json")))
     sid = os.path.basename(d)
     esc = lambda t: (t or "").replace("|", "\\|").replace("\n", " ")
-    rows.append(f"| {sid} | {m['property']} | {esc(m.get('breaks'))[:260]} | {esc(m.get('needs'))[:200]} | {', '.join(m.get('detected_by', [])) or '**missed**'}: {esc(m.get('rule'))[:200]} |")
+    rule = m.get("rule") or "; ".join(f"{k}: {', '.join(v)}" for k, v in (m.get("rules") or {}).items())
+    det = ", ".join(m.get("detected_by", []))
+    und = ", ".join(m.get("undecided_in", []))
+    verdict = det or ("**undecided** (exit 2)" if und else "**missed**")
+    if det and und:
+        verdict += f" (undecided in {und})"
+    elif und and not det:
+        verdict += f" in {und}"
+    rows.append(f"| {sid} | {m['property']} | {esc(m.get('breaks'))[:260]} | {esc(m.get('needs'))[:200]} | {verdict}: {esc(rule)[:200]} |")
 p = "/verif/DESIGN.md"
 s = open(p).read()
 a, b = s.index("<!-- SEEDS-BEGIN -->"), s.index("<!-- SEEDS-END -->")
